@@ -263,18 +263,18 @@ class WalkEval(TailEval):
         return rel if a.const_value() > 0 else -rel
 
 
-def run_walk(mod, table, Laue, cc, csys, seed, output_stl, target=45, scaled=None, flip=None):
+def run_walk(mod, table, Laue, cc, csys, seed, output_stl, target=45, scaled=None, flip=None, fname="genhkl_base"):
     """-> dict(rows=[(h,k,l)], keys_ok, col_ok, consulted=..., expected=[...], model=...)
     scaled=None: the band positions between / at-cutoff are used iff the code itself compares with a multiple > 1 of sintlmax
     for this combination (observed on a first run without them)"""
     if scaled is None:
-        first = run_walk(mod, table, Laue, cc, csys, seed, output_stl, target, scaled=False, flip=flip)
+        first = run_walk(mod, table, Laue, cc, csys, seed, output_stl, target, scaled=False, flip=flip, fname=fname)
         if not first.get("thresholds"):
             return first
-        return run_walk(mod, table, Laue, cc, csys, seed, output_stl, target, scaled=True, flip=flip)
+        return run_walk(mod, table, Laue, cc, csys, seed, output_stl, target, scaled=True, flip=flip, fname=fname)
     model = BandModel(table, seed, scaled, target)
     expected = model.expected()
-    fn = mod.func("genhkl_base")
+    fn = mod.func(fname)
     ev = WalkEval(mod, model)
     ev.bad_cell = None
     ev.flip = flip
